@@ -76,6 +76,9 @@ func main() {
 		for i := 0; i < *n; i++ {
 			cases = append(cases, genC01(r, i))
 		}
+		for i := 0; i < *n/4; i++ {
+			cases = append(cases, genC01Multi(r))
+		}
 	case "C08":
 		cases = append(cases, fixedC08()...)
 		groups := *n / 5
@@ -162,6 +165,12 @@ func fixedC01() []*Case {
 		mk("fixed", dir(".", file("a", 10), file("b", 11)), func(c *Case) { c.MaxSize = 10 }),
 		mk("fixed", dir(".", dir("a", file("z", 1), dir("b", file("z", 1)))), func(c *Case) { c.IgnoreSub = true; c.Paths = []string{"a"} }),
 		mk("fixed", dir(".", dir("a", file("z", 1))), func(c *Case) { c.IgnoreSub = true }),
+		// a skipped directory and a sibling whose name merely starts with the same text
+		mk("fixed", dir(".", dir("a", file("z", 1)), dir("ab", file("z", 1)), dir("lib", dir("a", file("z", 1)))), func(c *Case) { c.SkipList = []string{"a"} }),
+		// a symlink whose target is over the size limit; its directory entry reports the length of the link text
+		mk("fixed", dir(".", &Node{Name: "a", Kind: "sym", Size: 100}, &Node{Name: "b", Kind: "sym", Size: 3}, file("c", 100)), func(c *Case) { c.Symlinks = true; c.MaxSize = 10 }),
+		// FileRequired consults api.Stat()
+		mk("fixed", dir(".", file("a", 4), file("b", 20)), func(c *Case) { c.StatReq = []StatReq{{Ext: "e0", Min: 10}} }),
 	}
 }
 
@@ -189,7 +198,9 @@ func fixedC08() []*Case {
 		mk("fixed", []*Node{dir("."), dir(".", file("a", 1))}, nil),                      // inside D: only the last root yields
 		mk("fixed", []*Node{dir(".", file("a", 1)), dir(".", file("b", 1)), dir(".", file("c", 1))}, nil),
 		mk("fixed", []*Node{dir(".", file("b", 1), file("a", 1))}, func(c *Case) { c.Extract[0].Pkgs[0].Name = "p"; c.Extract[1].Pkgs[0].Name = "p" }),
-		mk("fixed", []*Node{dir(".")}, nil),
+		mk("fixed", []*Node{dir(".")}, func(c *Case) {
+			c.Dets = []Det{{Name: "det0", Findings: []Finding{{Pub: "ZZZ", Ref: "A9", Extra: "x"}, {Pub: "AAA", Ref: "R2", Extra: ""}, {Pub: "CVE", Ref: "A9", Extra: ""}}}}
+		}),
 	}
 }
 
